@@ -409,6 +409,8 @@ def target_to_bits(target):
         # coefficient is the first 3 digits of the base-256 number
         coefficient = raw_bytes[:3]
     # we've truncated the number after the first 3 digits of base-256
+    # (targets below 2**16 have fewer digits: pad so that bits is always 4 bytes)
+    coefficient = coefficient.ljust(3, b"\x00")
     new_bits = coefficient[::-1] + bytes([exponent])
     return new_bits
 
